@@ -33,3 +33,16 @@ func verifPoint(side, site int, id int32, counter *int32) {
 		(*h)(side, site, id, atomic.LoadInt32(counter))
 	}
 }
+
+// VerifCorruptor may modify a block inside the decoding pipeline (stage 0: after entropy
+// decoding, stage 1: after the inverse transforms, before the checksum comparison).
+type VerifCorruptor func(stage int, id int32, buf []byte)
+
+// VerifCorruptHook holds the installed corruptor (nil: nothing happens).
+var VerifCorruptHook atomic.Pointer[VerifCorruptor]
+
+func verifCorrupt(stage int, id int32, buf []byte) {
+	if h := VerifCorruptHook.Load(); h != nil {
+		(*h)(stage, id, buf)
+	}
+}
